@@ -275,3 +275,185 @@ Proof.
   split; [vm_compute; reflexivity|].
   eexists. eexists. split; [vm_compute; reflexivity|]. split; reflexivity.
 Qed.
+
+(** ** The general case: the reorganisation may reach below the block the
+    rescan started from
+
+    The header list then runs out during the walk back and the loop asks the
+    node for the headers below.  [stack_agrees st h l fork]: as far as the header
+    list [st] goes, its entries are the blocks of [l] (downwards from height
+    [h]) and then [fork]; it may stop anywhere (the rescan started there). *)
+Fixpoint stack_agrees (st : list (N * Z)) (h : Z) (l : list blk) (fork : blk) : Prop :=
+  match st with
+  | [] => True
+  | (x, hh) :: st' =>
+    match l with
+    | [] => x = bh fork /\ hh = h
+    | o :: os => x = bh o /\ hh = h /\ stack_agrees st' (h - 1) os fork
+    end
+  end.
+
+Lemma rwalk_spec_gen t fork deeper : forall old_top new_low st h blk atl out fuel fhd,
+  t !! bh fork = Some fhd -> p_height fhd = h - Z.of_nat (length old_top) ->
+  dlinked t old_top h (bh fork) ->
+  dlinked t (blk :: new_low) (h + 1) (bh fork) ->
+  differ2 old_top new_low ->
+  stack_agrees st h old_top fork ->
+  (length old_top < fuel)%nat ->
+  exists st',
+  rwalk true t fuel
+    {| r_prev := top_hash old_top (bh fork); r_prevh := h; r_stack := st;
+       r_i := h + 1; r_below := map bh new_low ++ bh fork :: deeper; r_above := bh blk :: atl |}
+    (bh blk) out =
+  Some ({| r_prev := bh fork; r_prevh := h - Z.of_nat (length old_top); r_stack := st';
+           r_i := h + 1 - Z.of_nat (length old_top); r_below := bh fork :: deeper;
+           r_above := map bh (rev (blk :: new_low)) ++ atl |},
+        top_hash (rev (blk :: new_low)) (bh blk),
+        out ++ discs h old_top).
+Proof.
+  induction old_top as [|o os IH]; intros new_low st h blk atl out fuel fhd Hf Hfh Hold Hnew Hdiff Hag Hfuel.
+  - destruct new_low as [|n ns]; [|destruct Hdiff].
+    destruct Hnew as [Hb _]. cbn [top_hash length map rev discs app].
+    destruct fuel as [|fuel]; [cbn in Hfuel; lia|].
+    exists st. cbn [rwalk]. rewrite Hb. cbn [p_prev r_prev]. rewrite N.eqb_refl.
+    rewrite !Z.sub_0_r, app_nil_r. reflexivity.
+  - destruct new_low as [|n ns]; [destruct Hdiff|]. destruct Hdiff as [Hne Hdiff].
+    destruct fuel as [|fuel]; [cbn in Hfuel; lia|].
+    assert (Hb := Hnew). destruct Hb as [Hb Hnew'].
+    assert (Ho := Hold). destruct Ho as [Ho Hold'].
+    assert (Htime : time_of t (bh o) = bt o) by (unfold time_of; rewrite Ho; reflexivity).
+    (* the header below the current one, wherever it comes from *)
+    assert (Hbelow : exists qhd, t !! top_hash os (bh fork) = Some qhd /\ p_height qhd = h - 1).
+    { destruct os as [|o' os']; cbn [top_hash].
+      - exists fhd. split; [exact Hf|]. cbn [length] in Hfh. lia.
+      - destruct Hold' as [Ho' _]. eexists. split; [exact Ho'|]. reflexivity. }
+    destruct Hbelow as (qhd & Hq & Hqh).
+    assert (Hpop : exists st1,
+      (let st' := tl st in
+       match st' with
+       | (x, hh) :: _ => Some (x, hh, st')
+       | [] => match (match t !! bh o with
+                      | None => None
+                      | Some phd => match t !! p_prev phd with
+                                    | None => None
+                                    | Some qhd0 => Some (p_prev phd, p_height qhd0)
+                                    end
+                      end) with Some (x, hh) => Some (x, hh, []) | None => None end
+       end) = Some (top_hash os (bh fork), h - 1, st1) /\ stack_agrees st1 (h - 1) os fork).
+    { unfold top_hash in Hq |- *.
+      destruct st as [|[x0 h0] st0]; cbn [tl].
+      - rewrite Ho. cbn [p_prev]. rewrite Hq, Hqh. exists []. split; [reflexivity|exact I].
+      - cbn [stack_agrees] in Hag. destruct Hag as (_ & _ & Hag').
+        destruct st0 as [|[x1 h1] st1].
+        + rewrite Ho. cbn [p_prev]. rewrite Hq, Hqh. exists []. split; [reflexivity|exact I].
+        + exists ((x1, h1) :: st1). split; [|exact Hag'].
+          cbn [stack_agrees] in Hag'. destruct os as [|o' os'].
+          * destruct Hag' as [-> ->]. reflexivity.
+          * destruct Hag' as (-> & -> & _). reflexivity. }
+    destruct Hpop as (st1 & Hpop & Hag1).
+    replace (h + 1) with (h - 1 + 1 + 1) in Hnew' by lia.
+    replace (h - 1 + 1 + 1 - 1) with (h - 1 + 1) in Hnew' by lia.
+    assert (Hfh' : p_height fhd = h - 1 - Z.of_nat (length os)) by (cbn [length] in Hfh; lia).
+    destruct (IH ns st1 (h - 1) n (bh blk :: atl)
+                (out ++ [NDisconnect {| m_height := h; m_hash := bh o; m_time := bt o |}]) fuel fhd
+                Hf Hfh' Hold' Hnew' Hdiff Hag1) as [st' Hrec]; [cbn [length] in Hfuel; lia|].
+    exists st'.
+    cbn [rwalk top_hash]. rewrite Hb. cbn [p_prev r_prev].
+    destruct (N.eqb_spec (bh n) (bh o)) as [E|_]; [congruence|].
+    cbn [r_below map app r_prevh r_i r_above r_stack].
+    rewrite Htime.
+    cbv zeta in Hpop. rewrite Hpop.
+    replace (h + 1 - 1) with (h - 1 + 1) by lia.
+    rewrite Hrec.
+    f_equal. f_equal; [f_equal|].
+    + f_equal; try (cbn [length]; lia).
+      cbn [rev]. rewrite !map_app, <- !app_assoc. reflexivity.
+    + cbn [rev]. destruct (rev ns ++ [n]) as [|x xs] eqn:E; [destruct (rev ns); discriminate E|].
+      cbn [top_hash app]. reflexivity.
+    + rewrite <- app_assoc. cbn [app discs]. unfold meta_of. reflexivity.
+Qed.
+
+Theorem rescan_follows_reorg_gen t fork fhd deeper old_top new_low nb new_high j st :
+  t !! bh fork = Some fhd -> p_height fhd = j - Z.of_nat (length old_top) ->
+  dlinked t old_top j (bh fork) ->
+  alinked t (bh fork) (j - Z.of_nat (length old_top) + 1) (rev new_low ++ nb :: new_high) ->
+  differ2 old_top new_low ->
+  stack_agrees st j old_top fork ->
+  exists s',
+    rescan_with true t
+      {| r_prev := top_hash old_top (bh fork); r_prevh := j; r_stack := st;
+         r_i := j + 1; r_below := map bh new_low ++ bh fork :: deeper; r_above := map bh (nb :: new_high) |} =
+    Some (discs j old_top ++ conns (j - Z.of_nat (length old_top) + 1) (rev new_low ++ nb :: new_high), s').
+Proof.
+  intros Hf Hfh Hold Hnew Hdiff Hag.
+  assert (Hlen : length old_top = length new_low).
+  { clear - Hdiff. revert new_low Hdiff. induction old_top as [|o os IH]; intros [|n ns] Hd; try destruct Hd; cbn [length]; auto. }
+  assert (Hdown : dlinked t (nb :: new_low) (j + 1) (bh fork)).
+  { pose proof (alinked_app t (rev new_low ++ [nb]) new_high (bh fork) (j - Z.of_nat (length old_top) + 1)) as Hs.
+    rewrite <- app_assoc in Hs. cbn [app] in Hs. destruct (Hs Hnew) as [Hs1 _].
+    pose proof (alinked_dlinked t (nb :: new_low) (bh fork) (j - Z.of_nat (length old_top) + 1)) as Hd.
+    cbn [rev] in Hd. specialize (Hd Hs1). cbn [length] in Hd.
+    replace (j - Z.of_nat (length old_top) + 1 + Z.of_nat (S (length new_low)) - 1) with (j + 1) in Hd by lia.
+    exact Hd. }
+  unfold rescan_with. cbn [r_below r_above map length].
+  set (F := (length (map bh new_low ++ bh fork :: deeper) + S (length (map bh new_high)) + 1)%nat).
+  assert (HF : exists F', F = S F' /\ (length new_low + length new_high <= F')%nat).
+  { unfold F. rewrite app_length, !map_length. cbn [length]. eexists. split; [rewrite Nat.add_1_r; reflexivity|]. lia. }
+  destruct HF as (F' & -> & HF').
+  cbn [rscan r_above map].
+  destruct (rwalk_spec_gen t fork deeper old_top new_low st j nb (map bh new_high) []
+              (length (r_below {| r_prev := top_hash old_top (bh fork); r_prevh := j; r_stack := st; r_i := j + 1;
+                                  r_below := map bh new_low ++ bh fork :: deeper; r_above := bh nb :: map bh new_high |}) +
+               length (r_stack {| r_prev := top_hash old_top (bh fork); r_prevh := j; r_stack := st; r_i := j + 1;
+                                  r_below := map bh new_low ++ bh fork :: deeper; r_above := bh nb :: map bh new_high |}) + 2)
+              fhd Hf Hfh Hold Hdown Hdiff Hag) as [st' Hw].
+  { cbn [r_below r_stack]. rewrite !app_length, map_length. cbn [length]. lia. }
+  rewrite Hw.
+  cbn [r_above r_i r_stack r_below app].
+  destruct (rev (nb :: new_low)) as [|x xs] eqn:Erev.
+  { exfalso. apply (f_equal (@length _)) in Erev. rewrite rev_length in Erev. cbn in Erev. lia. }
+  cbn [map app top_hash].
+  assert (Hsplit : rev new_low ++ nb :: new_high = x :: (xs ++ new_high)).
+  { cbn [rev] in Erev.
+    change (rev new_low ++ nb :: new_high) with (rev new_low ++ ([nb] ++ new_high)).
+    rewrite app_assoc, Erev. reflexivity. }
+  rewrite Hsplit in Hnew. cbn [alinked] in Hnew. destruct Hnew as [Hx Hrest].
+  assert (Ht : time_of t (bh x) = bt x) by (unfold time_of; rewrite Hx; reflexivity).
+  rewrite Ht.
+  destruct (rscan_linear t (xs ++ new_high) (bh x) (j + 1 - Z.of_nat (length old_top))
+              ((bh x, j + 1 - Z.of_nat (length old_top)) :: st')
+              (bh x :: bh fork :: deeper) (j + 1 - Z.of_nat (length old_top) + 1)
+              (([] ++ discs j old_top) ++ [NConnect {| m_height := j + 1 - Z.of_nat (length old_top); m_hash := bh x; m_time := bt x |}])
+              F') as [s' Hs'].
+  { replace (j + 1 - Z.of_nat (length old_top) + 1) with (j - Z.of_nat (length old_top) + 1 + 1) by lia. exact Hrest. }
+  { rewrite app_length. apply (f_equal (@length _)) in Erev. rewrite rev_length in Erev. cbn [length] in Erev. lia. }
+  exists s'. rewrite <- map_app. cbn [app] in Hs'. rewrite Hs'.
+  f_equal. f_equal. rewrite Hsplit. cbn [conns]. rewrite <- app_assoc. cbn [app].
+  unfold meta_of.
+  replace (j + 1 - Z.of_nat (length old_top)) with (j - Z.of_nat (length old_top) + 1) by lia.
+  reflexivity.
+Qed.
+
+Theorem rescan_is_emit_gen t anc fork fhd deeper old_top new_low nb new_high st :
+  let c := anc ++ rev old_top in
+  let j := tip_height c in
+  let new := rev new_low ++ nb :: new_high in
+  let e := evo_of old_top (rev new) in
+  t !! bh fork = Some fhd -> p_height fhd = j - Z.of_nat (length old_top) ->
+  dlinked t old_top j (bh fork) ->
+  alinked t (bh fork) (j - Z.of_nat (length old_top) + 1) new ->
+  differ2 old_top new_low ->
+  stack_agrees st j old_top fork ->
+  exists s',
+    rescan_with true t
+      {| r_prev := top_hash old_top (bh fork); r_prevh := j; r_stack := st;
+         r_i := j + 1; r_below := map bh new_low ++ bh fork :: deeper; r_above := map bh (nb :: new_high) |} =
+    Some (emit c e, s').
+Proof.
+  intros c j new e Hf Hfh Hold Hnew Hdiff Hag.
+  destruct (rescan_follows_reorg_gen t fork fhd deeper old_top new_low nb new_high j st Hf Hfh Hold Hnew Hdiff Hag) as [s' Hs'].
+  exists s'. rewrite Hs'. f_equal. f_equal.
+  unfold emit, e, evo_of, c. cbn [e_depth e_new].
+  rewrite emit_disconnects_discs. rewrite rev_involutive, emit_connects_conns.
+  fold c. fold j. fold new. reflexivity.
+Qed.
